@@ -15,6 +15,7 @@ package home
 
 import (
 	"bytes"
+	"context"
 	"encoding/json"
 	"fmt"
 	"math/rand"
@@ -169,6 +170,9 @@ type c12Tok struct {
 	logoutFault string
 	// logoutMulti: its logout request carried several session cookies.
 	logoutMulti bool
+	// logoutAborted: the client of its logout request had gone away (request
+	// context cancelled) before the handler ran.
+	logoutAborted bool
 	// maybeOut: it was a valid token of an accepted logout request that was
 	// not necessarily the one ended.
 	maybeOut bool
@@ -201,6 +205,8 @@ type c12Hist struct {
 	fault string
 	// force >= 0 makes the next request / logout use that token.
 	force int
+	// clientGone makes doReq send its request with a cancelled context.
+	clientGone bool
 }
 
 func (h *c12Hist) now() int64 { return time.Now().Unix() - c12Epoch.Unix() }
@@ -383,6 +389,13 @@ func (h *c12Hist) doLogin(raddr, name, pw string, hdrs []c12Hdr, carry *string) 
 func (h *c12Hist) doReq(raddr, path string, cookies, basic []string, logout bool) (ran bool, status int, cleared bool, pan any) {
 	r := httptest.NewRequest(http.MethodGet, path, nil)
 	r.RemoteAddr = raddr
+	if h.clientGone {
+		// The client has gone away before the handler runs: net/http cancels
+		// the context of such a request.
+		ctx, cancel := context.WithCancel(r.Context())
+		cancel()
+		r = r.WithContext(ctx)
+	}
 	if cookies != nil {
 		var parts []string
 		for _, c := range cookies {
@@ -1064,7 +1077,15 @@ func (h *c12Hist) cookieReq(logout bool) {
 		st.Exp += " [" + zone + "]"
 	}
 
+	aborted := logout && h.force < 0 && len(cks) > 0 && cks[0].tok >= 0 && h.rng.Intn(5) == 0
+	if aborted {
+		st.Detail += " [client gone: request context cancelled before the handler runs]"
+		h.canon[len(h.canon)-1] += ":client-gone"
+		h.rep.Event("logout_requests_whose_client_had_gone_away")
+	}
+	h.clientGone = aborted
 	ran, code, cleared, pan := h.doReq(raddr, path, vals, nil, logout)
+	h.clientGone = false
 	if pan != nil {
 		st.Obs = fmt.Sprintf("panic: %v", pan)
 		h.violate("panic:"+op, fmt.Sprintf("the %s request panicked: %v", op, pan), nil)
@@ -1120,6 +1141,13 @@ func (h *c12Hist) cookieReq(logout bool) {
 		if k.logoutFault != "" {
 			h.rep.Event("session_reject_checks_after_logout_during_storage_fault")
 			sfx += ":storage-fault-" + k.logoutFault
+		}
+		if k.logoutAborted {
+			h.rep.Event("session_reject_checks_after_client_aborted_logout")
+			if k.restartsSinceLogout > 0 {
+				h.rep.Event("session_reject_checks_after_client_aborted_logout_and_restart")
+			}
+			sfx += ":logout-client-had-gone-away"
 		}
 		if k.logoutMulti {
 			h.rep.Event("session_reject_checks_after_logout_with_several_cookies")
@@ -1240,6 +1268,10 @@ func (h *c12Hist) cookieReq(logout bool) {
 			o.restartsSinceLogout = 0
 			o.logoutFault = h.fault
 			o.logoutMulti = multi
+			o.logoutAborted = aborted
+			if aborted {
+				h.rep.Event("logouts_processed_after_the_client_had_gone_away")
+			}
 			h.rep.Event("logouts")
 			if h.fault != "" {
 				h.rep.Event("logouts_during_storage_fault")
@@ -1252,6 +1284,19 @@ func (h *c12Hist) cookieReq(logout bool) {
 	if multi && hard >= 0 && h.force < 0 && !h.dead && h.rng.Intn(2) == 0 {
 		h.force = hard
 		h.cookieReq(false)
+		h.force = -1
+	}
+	// A logout that was processed although its client had gone away: the
+	// token is probed now and, half of the time, again after a restart.
+	if aborted && hard >= 0 && h.force < 0 && !h.dead {
+		h.force = hard
+		h.cookieReq(false)
+		if !h.dead && h.rng.Intn(2) == 0 {
+			h.restart()
+			if !h.dead {
+				h.cookieReq(false)
+			}
+		}
 		h.force = -1
 	}
 }
@@ -1737,30 +1782,36 @@ func TestVerifC12(t *testing.T) {
 		}
 	}
 
+	c12BlockSweep(rep, dir, web)
+	globalContext.auth = oldAuth
+
 	// The run is conclusive only if the interesting events were observed.
 	need := map[string]int{
-		"block_enforced_checks":                                       verifkit.Pick(100, 2000),
-		"block_enforced_on_right_password":                            verifkit.Pick(20, 400),
-		"certain_runs_reaching_limit":                                 verifkit.Pick(100, 2000),
-		"success_clearing_a_count":                                    verifkit.Pick(50, 1000),
-		"session_must_accept_checks":                                  verifkit.Pick(200, 4000),
-		"session_must_accept_checks_after_restart":                    verifkit.Pick(20, 400),
-		"session_reject_checks_after_expiry":                          verifkit.Pick(50, 1000),
-		"session_reject_checks_after_logout":                          verifkit.Pick(50, 1000),
-		"session_reject_checks_after_logout_and_restart":              verifkit.Pick(5, 100),
-		"unknown_token_checks":                                        verifkit.Pick(100, 2000),
-		"restarts":                                                    verifkit.Pick(100, 2000),
-		"session_reject_checks_after_logout_during_storage_fault":     verifkit.Pick(50, 1000),
-		"block_enforced_after_right_basic_credentials_inside_block":   verifkit.Pick(30, 600),
-		"logouts_with_several_session_cookies":                        verifkit.Pick(20, 400),
-		"session_reject_checks_after_logout_with_several_cookies":     verifkit.Pick(10, 200),
-		"logout_requests_with_several_session_cookies":                verifkit.Pick(50, 1000),
-		"right_password_logins_carrying_a_session_cookie:expired-own": verifkit.Pick(30, 600),
-		"right_password_logins_carrying_a_session_cookie:live-own":    verifkit.Pick(20, 400),
-		"block_enforced_checks_on_new_address_with_512+_tracked":      verifkit.Pick(10, 50),
-		"logins_claiming_trusted_address_from_untrusted_peer":         verifkit.Pick(300, 6000),
-		"certain_runs_with_claimed_trusted_address_reaching_limit":    verifkit.Pick(50, 1000),
-		"block_enforced_on_attempt_claiming_trusted_address":          verifkit.Pick(50, 1000),
+		"block_enforced_checks":                                         verifkit.Pick(100, 2000),
+		"block_enforced_on_right_password":                              verifkit.Pick(20, 400),
+		"certain_runs_reaching_limit":                                   verifkit.Pick(100, 2000),
+		"success_clearing_a_count":                                      verifkit.Pick(50, 1000),
+		"session_must_accept_checks":                                    verifkit.Pick(200, 4000),
+		"session_must_accept_checks_after_restart":                      verifkit.Pick(20, 400),
+		"session_reject_checks_after_expiry":                            verifkit.Pick(50, 1000),
+		"session_reject_checks_after_logout":                            verifkit.Pick(50, 1000),
+		"session_reject_checks_after_logout_and_restart":                verifkit.Pick(5, 100),
+		"unknown_token_checks":                                          verifkit.Pick(100, 2000),
+		"restarts":                                                      verifkit.Pick(100, 2000),
+		"sweep_attempts_in_the_last_second_of_a_block":                  verifkit.Pick(200, 2000),
+		"sweep_attempts_in_the_last_millisecond_of_a_block":             verifkit.Pick(50, 500),
+		"session_reject_checks_after_client_aborted_logout_and_restart": verifkit.Pick(30, 600),
+		"session_reject_checks_after_logout_during_storage_fault":       verifkit.Pick(50, 1000),
+		"block_enforced_after_right_basic_credentials_inside_block":     verifkit.Pick(30, 600),
+		"logouts_with_several_session_cookies":                          verifkit.Pick(20, 400),
+		"session_reject_checks_after_logout_with_several_cookies":       verifkit.Pick(10, 200),
+		"logout_requests_with_several_session_cookies":                  verifkit.Pick(50, 1000),
+		"right_password_logins_carrying_a_session_cookie:expired-own":   verifkit.Pick(30, 600),
+		"right_password_logins_carrying_a_session_cookie:live-own":      verifkit.Pick(20, 400),
+		"block_enforced_checks_on_new_address_with_512+_tracked":        verifkit.Pick(10, 50),
+		"logins_claiming_trusted_address_from_untrusted_peer":           verifkit.Pick(300, 6000),
+		"certain_runs_with_claimed_trusted_address_reaching_limit":      verifkit.Pick(50, 1000),
+		"block_enforced_on_attempt_claiming_trusted_address":            verifkit.Pick(50, 1000),
 	}
 	if !rep.Violated() {
 		var low []string
@@ -1772,6 +1823,137 @@ func TestVerifC12(t *testing.T) {
 		sort.Strings(low)
 		if len(low) > 0 {
 			rep.Inconcl("too few monitor events: " + strings.Join(low, ", "))
+		}
+	}
+}
+
+// c12BlockSweep is the scripted family "block-sweep": on virtual time, one
+// address reaches the attempt limit from a clean state and then tries the
+// right and a wrong password at instants spread over the whole block period,
+// with nanosecond resolution near its end (the random histories use whole
+// seconds only).  "Rejected until the block period has elapsed" must hold at
+// every instant before the end, decided on the limiter's own clock.  After the
+// end nothing but "the right password is never answered 403" is asserted.
+func c12BlockSweep(rep *verifkit.Report, dir string, web []webUser) {
+	rng := rep.Rand("block-sweep")
+	n := verifkit.Pick(60, 600)
+	for i := 0; i < n; i++ {
+		max := c12Pick(rng, 1, 2, 3, 5)
+		block := c12Pick(rng, 30*time.Second, time.Minute, 15*time.Minute, time.Duration(2+rng.Intn(58))*time.Minute)
+		startOff := time.Duration(rng.Int63n(int64(48 * time.Hour)))
+		gaps := make([]time.Duration, max)
+		for j := 1; j < max; j++ {
+			gaps[j] = time.Duration(rng.Int63n(int64(10 * time.Second)))
+		}
+		// Offsets from the failure that reaches the limit, ascending.
+		offs := []time.Duration{1, time.Millisecond, 500 * time.Millisecond, time.Second, block / 4, block / 2,
+			block - 2*time.Second, block - time.Second - time.Millisecond, block - time.Second,
+			block - 999*time.Millisecond, block - 750*time.Millisecond, block - 500*time.Millisecond,
+			block - 100*time.Millisecond, block - time.Millisecond, block - time.Microsecond, block - 1}
+		for j := 0; j < 6; j++ {
+			offs = append(offs, time.Duration(rng.Int63n(int64(block))))
+		}
+		for j := 0; j < 4; j++ {
+			offs = append(offs, block-time.Duration(1+rng.Int63n(int64(time.Second))))
+		}
+		sort.Slice(offs, func(x, y int) bool { return offs[x] < offs[y] })
+		ip := c12Pick(rng, "192.0.2.44", "2001:db8::44", "203.0.113.44")
+		file := filepath.Join(dir, fmt.Sprintf("sessions-sweep-%d.db", i))
+		type probe struct {
+			Off    string `json:"offset_from_the_limit_reaching_failure"`
+			Left   string `json:"time_before_the_end_of_the_block"`
+			Pw     string `json:"password"`
+			Status int    `json:"status"`
+		}
+		var trace []probe
+		var inconcl string
+		h := &c12Hist{rep: rep, rng: rng, force: -1}
+		synctest.Run(func() {
+			if !time.Now().Equal(c12Epoch) {
+				inconcl = "virtual clock not available"
+				return
+			}
+			time.Sleep(startOff)
+			a := InitAuth(file, web, 3600, newAuthRateLimiter(block, uint(max)), netutil.SliceSubnetSet{})
+			if a == nil {
+				inconcl = "InitAuth returned nil"
+				return
+			}
+			defer a.Close()
+			globalContext.auth = a
+			raddr := func() string { return h.remoteAddr(ip) }
+			for j := 0; j < max; j++ {
+				time.Sleep(gaps[j])
+				if st, _, _, _, _ := h.doLogin(raddr(), "admin", "pw-adminx", nil, nil); st != http.StatusForbidden {
+					rep.Violate("throttle:blocked-without-run:block-sweep", fmt.Sprintf("failure %d of %d from a clean state was answered %d", j+1, max, st),
+						map[string]any{"max_attempts": max, "block": block.String()})
+					return
+				}
+			}
+			t0 := time.Now()
+			viol := func(key, what string) {
+				rep.Violate(key, what, map[string]any{"max_attempts": max, "block": block.String(), "address": ip,
+					"start_of_history": c12Epoch.Add(startOff).Format(time.RFC3339Nano), "gaps_between_the_failures": fmt.Sprint(gaps),
+					"attempts_after_the_limit_was_reached": trace,
+					"note":                                 "virtual time (testing/synctest); the address made max_attempts failed logins from a clean state, the last of them at offset 0"})
+			}
+			for _, off := range offs {
+				time.Sleep(off - time.Since(t0))
+				for _, pw := range []string{"right", "wrong"} {
+					if off > time.Second && off < block-time.Second && rng.Intn(2) == 0 {
+						continue
+					}
+					p := "pw-admin"
+					if pw == "wrong" {
+						p = "pw-adminx"
+					}
+					st, _, hasCookie, _, pan := h.doLogin(raddr(), "admin", p, nil, nil)
+					left := block - time.Since(t0)
+					trace = append(trace, probe{time.Since(t0).String(), left.String(), pw, st})
+					rep.Event("sweep_attempts_inside_a_block")
+					region := "inside-the-block-period"
+					if left <= time.Second {
+						region = "last-second-of-the-block-period"
+						rep.Event("sweep_attempts_in_the_last_second_of_a_block")
+					}
+					if left <= time.Millisecond {
+						rep.Event("sweep_attempts_in_the_last_millisecond_of_a_block")
+					}
+					switch {
+					case pan != nil:
+						viol("panic:login", fmt.Sprintf("handleLogin panicked: %v", pan))
+						return
+					case st == http.StatusTooManyRequests && !hasCookie:
+					case st == http.StatusOK:
+						viol("throttle:accepted-in-block:block-sweep:"+region,
+							fmt.Sprintf("the right password was accepted %s before the end of the block period", left))
+						return
+					default:
+						viol("throttle:evaluated-in-block:block-sweep:"+region,
+							fmt.Sprintf("a login was answered %d %s before the end of the block period", st, left))
+						return
+					}
+				}
+			}
+			// After the end: the right password is never answered 403.
+			time.Sleep(block + c12Pick(rng, time.Nanosecond, time.Millisecond, time.Second) - time.Since(t0))
+			st, _, _, _, _ := h.doLogin(raddr(), "admin", "pw-admin", nil, nil)
+			trace = append(trace, probe{time.Since(t0).String(), (block - time.Since(t0)).String(), "right", st})
+			rep.Event(fmt.Sprintf("sweep_right_password_after_the_block:%d", st))
+			if st == http.StatusForbidden {
+				viol("login:right-password-rejected-403:block-sweep", "the right password was answered 403 after the block period")
+			}
+		})
+		_ = os.Remove(file)
+		if inconcl != "" {
+			rep.Inconcl(inconcl)
+			return
+		}
+		rep.Event("block_sweep_histories")
+		rep.Eval(true, fmt.Sprintf("sweep|%d|%s|%s|%v|%v", max, block, startOff, gaps, offs))
+		rep.Class(fmt.Sprintf("family=block-sweep max=%d", max))
+		if i == 0 {
+			rep.Sample(map[string]any{"family": "block-sweep", "max_attempts": max, "block": block.String(), "attempts": trace})
 		}
 	}
 }
